@@ -165,7 +165,7 @@ impl<A: Cx> Drv<A> {
     pub fn produce(&mut self, dst: usize, content: &[u8]) {
         let n = content.len();
         let c = A::NAME;
-        let comp = matches!(c, "dna" | "iupac" | "mdna" | "miupac" | "degen");
+        let comp = matches!(c, "dna" | "iupac" | "mdna" | "miupac" | "degen" | "x3");
         let filler = self.codes()[0];
         let pick = self.rng.below(15);
         match pick {
